@@ -864,6 +864,54 @@ def rule_local_constants(chk):
     chk.floor("C03.floor/local-definitions", n, 8, "local definitions evaluated", where(fn))
 
 
+def rule_local_type(chk, prefix="C03.locals/type"):
+    """parse_localtype read as a table over every ordered list of up to three of the modifiers a local can carry
+    (static, const, volatile, precise; a modifier may repeat): the local is static exactly when `static` is written,
+    precise exactly when `precise` is, wherever the keyword stands; extern / groupshared are refused."""
+    import itertools
+    import interp as I
+    f = chk.facts
+    fn = f.fn("parse_localtype", "rssl_typer")
+    if not fn:
+        chk.note("%s: parse_localtype not found; not decided" % prefix)
+        return
+    ok = lambda v: I.Enum("Result", "Ok", {"0": v})
+    loc = lambda v: I.Enum("Located", None, {"node": v, "location": I.Opaque("location")})
+    ext = {"parse_type_for_usage": lambda a: ok(I.Enum("TypeId", None, {"0": 3})), "TypeRegistry::is_void": lambda a: False}
+    words = ["Static", "Const", "Volatile", "Precise"]
+    lists = [()] + [c for k in (1, 2, 3) for c in itertools.product(words, repeat=k)] + [("Extern",), ("Const", "GroupShared"), ("Static", "Extern")]
+    n = 0
+    bad = None
+    for mods in lists:
+        ty = I.Enum("Type", None, {"layout": I.Opaque("layout"), "modifiers": I.Enum("TypeModifierSet", None, {"modifiers": [loc(I.Enum("TypeModifier", m)) for m in mods]}), "location": I.Opaque("location")})
+        ctx = I.Enum("Context", None, {"module": I.Enum("Module", None, {"type_registry": I.Opaque("type registry")})})
+        written = "`%s T x;`" % " ".join(m.lower() for m in mods) if mods else "`T x;`"
+        try:
+            r = I.Interp(f, max_depth=6, extern=ext).apply(fn, [ty, ctx])
+        except I.Unknown as e:
+            if "panicking" in str(e):
+                bad = bad or "parse_localtype aborts on a local written %s (%s)" % (written, str(e)[:60])
+                continue
+            chk.note("%s: parse_localtype is not readable (%s); not decided" % (prefix, str(e)[:80]))
+            return
+        n += 1
+        refused = isinstance(r, I.Enum) and r.variant == "Err"
+        if "Extern" in mods or "GroupShared" in mods:
+            if not refused:
+                bad = bad or "a local written %s is accepted" % written
+            continue
+        if refused or not (isinstance(r.fields.get("0"), tuple) and len(r.fields["0"]) == 3):
+            bad = bad or "a local written %s is refused" % written
+            continue
+        _t, st, pr = r.fields["0"]
+        want = "Static" if "Static" in mods else "Local"
+        if getattr(st, "variant", None) != want:
+            bad = bad or "a local written %s gets storage %s, must be %s: the keyword's position decides whether the variable keeps its value between calls" % (written, getattr(st, "variant", st), want)
+        elif bool(pr) != ("Precise" in mods):
+            bad = bad or "a local written %s is %sprecise" % (written, "" if pr else "not ")
+    chk.ob(prefix, bad is None, bad or "%d modifier lists: static / precise are recognised wherever they stand" % n, where(fn), sample={"lists": n})
+
+
 def rule_global_type(chk):
     """parse_globaltype read as a table over the storage-class keywords a global can be written with (none, extern,
     static, groupshared, each with and without const, repeated, and conflicting pairs): the storage class is the one
@@ -1013,6 +1061,7 @@ def run(chk):
     rule_total(chk)
     rule_swizzle_value_type(chk)
     rule_matrix_subscript(chk)
+    rule_local_type(chk)
     rule_lvalue_destination(chk)
 
 
